@@ -105,6 +105,10 @@ class DictV(V):
             return True
         if type(k).__name__ == 'AnnotV' and type(key).__name__ == 'AnnotV' and isinstance(k.label, str) and k.label == key.label:
             return True     # enum members are singletons
+        if type(k).__name__ in ('Prim', 'TypeV') and type(key) is type(k):
+            return k.name == key.name
+        if type(k).__name__ == 'FuncV' and type(key) is type(k):
+            return k.fn is key.fn and k.node is key.node
         if type(k).__name__ == 'TupleV' and type(key).__name__ == 'TupleV' and len(k.items) == len(key.items):
             return all(DictV._same_key(a, b) for a, b in zip(k.items, key.items))
         return k is key
@@ -1208,9 +1212,21 @@ class Interp:
                 obj.items[:] = []
                 return NONE
             if name == 'update':
-                for kk, vv in (args[0].items if args and isinstance(args[0], DictV) else []):
-                    obj.set(kk, vv)
+                if args:
+                    if isinstance(args[0], DictV):
+                        pairs = list(args[0].items)
+                    else:
+                        pairs = []
+                        for item in self.iterate(args[0], node):        # Undecided when it cannot be iterated
+                            kv = self.iterate(item, node)
+                            if len(kv) != 2:
+                                raise Raised('ValueError: dictionary update sequence element has length %d' % len(kv), getattr(node, 'lineno', 0))
+                            pairs.append((kv[0], kv[1]))
+                    for kk, vv in pairs:
+                        obj.set(kk, vv)
                 for kk, vv in kwargs.items():
+                    if kk.startswith('**'):
+                        raise Undecided('dict.update with symbolic keyword arguments')
                     obj.set(Const(kk), vv)
                 return NONE
         if isinstance(obj, SetV):
